@@ -3,6 +3,7 @@ use crate::runner::Tier;
 use crate::PropDef;
 
 pub mod concchecks;
+pub mod concchecks2;
 pub mod misc;
 pub mod seqchecks;
 
@@ -10,6 +11,7 @@ pub fn all() -> Vec<PropDef> {
     let mut v = Vec::new();
     v.extend(seqchecks::defs());
     v.extend(concchecks::defs());
+    v.extend(concchecks2::defs());
     v.extend(misc::defs());
     v
 }
